@@ -30,6 +30,26 @@ func errKind(err error) string {
 
 // resField renders a t-test outcome for the case line: err:<kind> or N1:N2:T:DoF:P:F(|t|):F(t)
 // where F is the implementation's own TDist{DoF}.CDF.
+// pRef is the p-value from an INDEPENDENT t distribution function (quadrature of a density written
+// without the package); NaN when |t| is too large for the quadrature.
+func pRef(t, dof float64, alt stats.LocationHypothesis) float64 {
+	if !(math.Abs(t) <= 60) || !(dof > 0) {
+		return math.NaN()
+	}
+	if glX == nil {
+		initGL(24)
+	}
+	switch alt {
+	case stats.LocationLess:
+		return tCDFRef(dof, t)
+	case stats.LocationGreater:
+		return 1 - tCDFRef(dof, t)
+	}
+	return 2 * (1 - tCDFRef(dof, math.Abs(t)))
+}
+
+var curAlt stats.LocationHypothesis
+
 func resField(res *stats.TTestResult, err error) (field, obs string) {
 	if err != nil {
 		return "err:" + errKind(err), errKind(err)
@@ -43,7 +63,7 @@ func resField(res *stats.TTestResult, err error) (field, obs string) {
 		fa = d.CDF(math.Abs(res.T))
 		ft = d.CDF(res.T)
 	})
-	return fmt.Sprintf("%d:%d:%s:%s:%s:%s:%s", res.N1, res.N2, fb(res.T), fb(res.DoF), fb(res.P), fb(fa), fb(ft)),
+	return fmt.Sprintf("%d:%d:%s:%s:%s:%s:%s:%s", res.N1, res.N2, fb(res.T), fb(res.DoF), fb(res.P), fb(fa), fb(ft), fb(pRef(res.T, res.DoF, curAlt))),
 		fmt.Sprintf("ok:%d:%d", res.N1, res.N2)
 }
 
@@ -64,6 +84,7 @@ func ttestCases(r *hx.Rand, n int) {
 	alts := []stats.LocationHypothesis{stats.LocationLess, stats.LocationDiffers, stats.LocationGreater}
 	for i := 0; i < n; i++ {
 		alt := alts[r.Intn(3)]
+		curAlt = alt
 		mu := 0.0
 		if r.Chance(1, 3) {
 			mu = float64(r.Intn(21)-10) / 4
@@ -106,6 +127,10 @@ func ttestCases(r *hx.Rand, n int) {
 			n1, n2 := r.Intn(12), r.Intn(12)
 			if r.Chance(1, 4) {
 				n1, n2 = 5+r.Intn(200), 5+r.Intn(200)
+			}
+			if r.Chance(1, 6) { // large samples: Welch / pooled degrees of freedom around and above 1000
+				n1, n2 = 450+r.Intn(500), 450+r.Intn(500)
+				tag += "+large"
 			}
 			if r.Chance(1, 2) {
 				n2 = n1
@@ -177,9 +202,9 @@ func ttestCases(r *hx.Rand, n int) {
 		if ok {
 			hx.Printf("obs %d welch=%s pooled=%s paired=%s one=%s\n", id, oW, oP, oR, oO)
 			if xs != nil {
-				hx.Printf("sobs %d welch=ok pooled=ok paired=ok one=ok ptail=ok in=kept again=same\n", id)
+				hx.Printf("sobs %d welch=ok pooled=ok paired=ok one=ok ptail=ok pref=ok in=kept again=same\n", id)
 			} else {
-				hx.Printf("sobs %d ptail=ok in=kept again=same\n", id)
+				hx.Printf("sobs %d ptail=ok pref=ok in=kept again=same\n", id)
 			}
 		}
 		id++
